@@ -94,7 +94,16 @@ def run_check(d, prop, tier, seed, replay, t0):
                     tail = f.read()[-2500:]
             except Exception:
                 pass
-            if r["rc"] == "timeout":
+            hangf = os.path.join(d.OUT, "%s.%s.%d.json.hang" % (prop, fl, r["i"]))
+            if r["rc"] == 3 and os.path.exists(hangf):
+                try:
+                    with open(hangf) as f:
+                        hc = json.load(f)
+                    hp = d.save_replay("hang-" + prop, hc)
+                except Exception:
+                    hp = hangf
+                inconclusive.append("worker %d (%s): one case exceeded the per-case time limit (possible hang); case saved as %s" % (r["i"], fl, hp))
+            elif r["rc"] == "timeout":
                 inconclusive.append("worker %d (%s) hit the watchdog" % (r["i"], fl))
             elif prop in ("C05", "C07") and os.path.exists(cur):
                 # a crash (sanitizer report, segfault) while executing a generated case
